@@ -180,7 +180,7 @@ def cq_A(f, *args):
 
 
 def cq_lam(ps, body):
-    return "(ELam [%s] %s)" % ("; ".join('"%s"' % p for p in ps), body)
+    return "(ELam [%s] None %s)" % ("; ".join('"%s"' % p for p in ps), body)
 
 
 def cq_if(c, t, e):
@@ -372,9 +372,9 @@ def c09_limit_exceeds_memory(case, params):
     """Known-finding class: non-tail recursion whose frames are so wide that STACK_LIMIT frames do not fit in
     the memory available to the process; the process is then killed by the allocator / the OS before the
     depth guard is reached.  Decidable on the inputs: frame width, STACK_LIMIT, cap."""
-    if case.get("kind") != "deep":
-        return False
-    need = (2 * 16 * (case["width"] + 1) + 64) * case["stack_limit"]
+    if case.get("kind") != "deep" or case["width"] < params.get("min_width", 8):
+        return False        # narrow frames must reach the depth guard: never excused
+    need = (2 * 16 * (case["width"] + 1) + 64) * params.get("stack_limit", 10000000)
     return need > case["cap_mb"] * 2**20 and case.get("outcome", "").startswith(("crash", "abort"))
 
 
